@@ -326,6 +326,26 @@ fn prepare(row: &Value, w: &World) -> Run {
       let vo = JwsVerificationOptions::new();
       Run { jwt, expected_credential: cred, vopts: vo.clone(), opts: base_opts(vo), trusted_both: false, fail_fast: FailFast::AllErrors }
     }
+    "D" => {
+      // which bounds are configured: an unset bound is the current time
+      let year = |y: &str| -> i64 {
+        let n: i64 = y[1..].parse().unwrap();
+        Timestamp::parse(&format!("{n:04}-06-15T12:00:00Z")).unwrap().to_unix()
+      };
+      let expiry = if s(&row["exp"]) == "absent" { None } else { Some(year(s(&row["exp"]))) };
+      let sp = Spec2 { issuance: year(s(&row["nbf"])), expiry, ..Default::default() };
+      let (claims, cred) = claims_of(&sp);
+      let jwt = sign_jwt(&claims, Some("did:example:issuer#key-1"), None, &w.k1);
+      let vo = JwsVerificationOptions::new();
+      let mut o = JwtCredentialValidationOptions::new().verification_options(vo.clone());
+      if s(&row["latest_issuance"]) != "unset" {
+        o = o.latest_issuance_date(Timestamp::from_unix(year(s(&row["latest_issuance"]))).unwrap());
+      }
+      if s(&row["earliest_expiry"]) != "unset" {
+        o = o.earliest_expiry_date(Timestamp::from_unix(year(s(&row["earliest_expiry"]))).unwrap());
+      }
+      Run { jwt, expected_credential: cred, vopts: vo, opts: o, trusted_both: false, fail_fast: FailFast::AllErrors }
+    }
     _ => {
       // one failing condition in each phase
       let mut sp = Spec2::default();
@@ -422,7 +442,7 @@ fn run_row(case: &Value, w: &World) -> Vec<(String, Value, Value)> {
     (Err(e), false) => {
       let mut got: Vec<String> = e.validation_errors.iter().map(|x| err_kind(x).to_string()).collect();
       got.sort();
-      let all_errors = (phase == "U" || phase == "C") && matches!(run.fail_fast, FailFast::AllErrors);
+      let all_errors = (phase == "U" || phase == "C" || phase == "D") && matches!(run.fail_fast, FailFast::AllErrors);
       let ok = if all_errors {
         allowed.iter().all(|a| got.contains(a)) // every failing condition is reported
       } else {
